@@ -1045,7 +1045,11 @@ def build(unit, repo_root, diff=False, canary=False):
         else:
             raise Undecided('bad unit directive: %s' % line)
     if canary == 'A':
-        out.add('proof fn canary_global() { assert(false); } // CANARY', {'k': 'canary', 'fn': '<global>', 'where': 'axioms'})
+        # every axiom of the included specification files is invoked first: an inconsistent set of axioms would let
+        # this assert(false) verify, and the canary run would then report a vacuous unit
+        axioms = sorted(set(re.findall(r'pub\s+axiom\s+fn\s+(\w+)\s*\(\s*\)', out.text())))
+        out.add('proof fn canary_global() { %s assert(false); } // CANARY' % ' '.join(a + '();' for a in axioms), {'k': 'canary', 'fn': '<global>', 'where': 'axioms'})
+        info['axioms_in_canary'] = axioms
     out.add('} // verus!', {'k': 'gen'})
     out.add('fn main() {}', {'k': 'gen'})
     info['rewrites'] = counts
